@@ -3,6 +3,7 @@ import StepModel.SkipEntry
 import StepModel.Generated.P21RWGen
 import StepModel.HeaderIdsLemmas
 import StepModel.WsBytesLemmas
+import StepModel.WsBytesItems
 import StepModel.Props.C01
 /-!
 C16 — working-session files round-trip populations with per-instance state.
@@ -748,6 +749,111 @@ theorem C16_text_roundtrip_partial {F} (ops : FloatOps F) (lex : LexCfg) (cfg : 
   · rw [hv]; simp [rs]
   · simp only [wsWriteInsts, hres]
 
+/-- **the two passes of a working-session read over the TEXT, internally and externally mapped records mixed** (`_partial`): the
+    DATA section is any sequence of entries `L#<record>` with `L` one of C, I, N and pairwise different ids, each record either
+    internally mapped over the kinds of C01's `Covered` (redeclared attributes allowed) or externally mapped
+    `( PART(…) PART(…) … )` with a legal combination of known parts (exactly the records of `C01_read_file_mixed_partial`), any
+    layout between the entries, references forward and backward between records of either mapping.  Pass 1 creates one instance
+    per entry with the STATE OF ITS LETTER, pass 2 reads every parameter of every record and of every part to the value its token
+    denotes and leaves the state alone; nothing is reported, every instance counts as valid.  (Read half at text level; the
+    write half for externally mapped instances is not in C01's writer theorems.  Entries marked deleted and comments before the
+    letter are not in this statement.) -/
+theorem C16_text_read_mixed_partial {F} (ops : FloatOps F) (lex : LexCfg) (cfg : RWCfg) (d : Dict) (strict : Bool)
+    (hskip : cfg.skipInstanceSkipsComments = true) (hcri : lex.criSkipsComments = true) (hagg : cfg.aggrSkipsComments = true)
+    (hmc : cfg.missingCheckEverySecond = false) (hrep : cfg.complexReportsError = true)
+    (rs : List (Letter × AnyRec F)) (g0 sp tail : List Byte) (hg0 : Seps g0) (hsp : sp.all isSpace = true)
+    (hL : ∀ x ∈ rs, x.1 ≠ .D) (hnd : (rs.map (fun x => (x.2.item d).id)).Nodup)
+    (hrec : ∀ x ∈ rs, AnyRecCovered { ops := ops, lex := lex, cfg := cfg, dict := d,
+                                       lookup := Mgr.lookup d ({ insts := rs.map (fun x => (x.2.item d).mkI) } : Mgr F) } x.2) :
+    ∃ p1 p2, wsReadData ops lex cfg d strict
+        (g0 ++ wsRenderI (rs.map (fun x => (x.1, x.2.item d))) (endsec sp tail)) = .ok (p1, p2) ∧
+      p2.mgr.insts = rs.map (fun x => { (x.2.item d).out with state := x.1.state }) ∧
+      p1.count = rs.length ∧ p1.notCreated = 0 ∧ p2.fileErr = .null ∧ p2.valid = rs.length ∧ p2.invalid = 0 ∧
+      p2.incomplete = 0 := by
+  let xs : List (Letter × Item F) := rs.map (fun x => (x.1, x.2.item d))
+  have hlk : Mgr.lookup d ({ insts := xs.map wsMkI } : Mgr F) =
+      Mgr.lookup d ({ insts := rs.map (fun x => (x.2.item d).mkI) } : Mgr F) := by
+    apply lookup_congr
+    simp [xs, List.map_map, Function.comp_def, keyOf, wsMkI]
+  obtain ⟨p1, p2, hr, hm, hc, hnc, herr, hv, hinv, hinc, _⟩ :=
+    wsReadData_items ops lex cfg d strict sp tail hsp xs g0 hg0
+      (by
+        intro x hx
+        obtain ⟨y, hym, rfl⟩ := List.mem_map.mp hx
+        obtain ⟨L, r⟩ := y
+        refine ⟨hL _ hym, ?_⟩
+        cases r with
+        | simple rg =>
+          obtain ⟨hl, hg, e, he, habs, _, hcov⟩ := hrec _ hym
+          have he' : d.entity? rg.1.name = some e := he
+          refine ⟨hg, rfl, ?_⟩
+          intro m hnone l c k hc h47 h92
+          obtain ⟨l', h⟩ := createInstance_rec cfg hskip d m rg.1 hl (fun q hq => covered_scan _ q (hcov q hq)) hnone e he' habs
+            l rg.2 hg c k hc h47 h92
+          refine ⟨l', ?_⟩
+          show createInstance cfg d m (G l (rg.1.text [] ++ (rg.2 ++ c :: k)) false) = _
+          rw [rec_text_append, h]
+          simp [AnyRec.item, mkInst, he']
+        | complex r g =>
+          obtain ⟨hl, hg, hlegal, _, _⟩ := hrec _ hym
+          refine ⟨hg, rfl, ?_⟩
+          intro m hnone l c k hc h47 h92
+          obtain ⟨l', h⟩ := createInstance_crec cfg hskip d m r hl hnone hlegal l g hg c k hc h47 h92
+          refine ⟨l', ?_⟩
+          show createInstance cfg d m (G l (r.text [] ++ (g ++ c :: k)) false) = _
+          rw [crec_text_append]
+          exact h)
+      (by simpa [xs, List.map_map, Function.comp_def] using hnd)
+      (by
+        intro x hx
+        obtain ⟨y, hym, rfl⟩ := List.mem_map.mp hx
+        obtain ⟨L, r⟩ := y
+        rw [hlk]
+        cases r with
+        | simple rg =>
+          obtain ⟨hl, hg, e, he, habs, hal, hcov⟩ := hrec _ hym
+          have hent' : d.entity? rg.1.name = some e := he
+          refine ⟨rfl, hg, rfl, rfl, by simp [keyOf, finInst, mkInst, AnyRec.item], ?_⟩
+          intro st l rest sk hfind hlk' hs
+          have hs' : st.s = G l (rg.1.text rest) sk := by rw [← rec_text_append]; exact hs
+          have hrd : ∀ L', ∃ sk1, instSTEPread { ops := ops, lex := lex, cfg := cfg, dict := d, lookup := Mgr.lookup d st.mgr } strict
+              e.attrs (G L' (40 :: (renderParams rg.1.ps ++ rg.1.t4 rest)) sk) =
+                .ok ⟨.null, rg.1.ps.map (·.v), G ((40 :: renderParams rg.1.ps).reverse ++ L') (rg.1.t4 rest) sk1, .null⟩ := by
+            intro L'
+            obtain ⟨sk2, _, h⟩ := instSTEPread_aligned { ops := ops, lex := lex, cfg := cfg, dict := d, lookup := Mgr.lookup d st.mgr }
+              strict hmc e.attrs rg.1.ps hal hl.pne
+              (fun q hq => covered_rd _ strict hcri hagg q (by rw [hlk']; exact hcov q hq))
+              (fun q hq => covered_head_ne41 _ q (hcov q hq)) L' sk (rg.1.t4 rest)
+            exact ⟨sk2, h⟩
+          obtain ⟨l', sk', h⟩ := readInstance_semi_anyflag ops lex cfg d strict st rg.1 hl l rest sk hs' (mkInst d (rg.1, rg.2)) hfind rfl rfl
+            { name := rg.1.name, vals := match d.entity? rg.1.name with | some e => defaults e.attrs | none => [] } rfl e hent'
+            .null (rg.1.ps.map (·.v)) .null hrd (by
+              have : decide (P21.Sev.null.toInt ≤ P21.Sev.warning.toInt) = false := by decide
+              rw [this, Bool.and_false])
+          refine ⟨l', sk', ?_⟩
+          rw [h]
+          simp [finInst, mkInst, stateOf, AnyRec.item]
+        | complex r g =>
+          obtain ⟨hl, hg, hlegal, hknown, hcov⟩ := hrec _ hym
+          refine ⟨rfl, hg, rfl, rfl, ?_, ?_⟩
+          · show keyOf (finCInst d r) = keyOf (mkCInst d r)
+            simp only [keyOf, finCInst, foldl_setPart_names]
+          · intro st l rest sk hfind hlk' hs
+            have hs' : st.s = G l (r.text rest) sk := by rw [← crec_text_append]; exact hs
+            exact (C01_complex_record_both_passes_partial ops lex cfg d strict hskip hcri hagg hrep r hl hlegal hknown).2 st hfind
+              (fun c hc => by rw [hlk']; exact hcov c hc) l rest sk hs')
+  have hall : errAfterI .null (xs.map (·.2)) = .null :=
+    errAfterI_null _ (by
+      intro y hy
+      simp only [xs, List.map_map, List.mem_map, Function.comp_def] at hy
+      obtain ⟨x, _, rfl⟩ := hy
+      obtain ⟨L, r⟩ := x
+      cases r <;> rfl)
+  refine ⟨p1, p2, hr, ?_, ?_, hnc, by rw [herr, hall], ?_, hinv, hinc⟩
+  · rw [hm]; simp [xs, List.map_map, Function.comp_def, wsOutI]
+  · rw [hc]; simp [xs]
+  · rw [hv]; simp [xs]
+
 /-- the tables of the byte-level layer are the regenerated ones: the prefix letters `strchr( "CIND", c )` accepts, the state
     `EntityWfState` gives each (what pass 1 appends the instance with), the letter `WriteWorkingData` prints for each state;
     a working-session read never changes a state; skipped `D` entries are not counted -/
@@ -794,6 +900,23 @@ example :
     exact ⟨h0, h1, h2, p, e, hp, he, ha, hk, hr⟩
   · obtain ⟨h0, h1, h2, p, e, hp, he, ha, hk, hr⟩ := hst wRecA (by simp [wRecs])
     exact ⟨h0, h1, h2, p, e, hp, he, ha, hk, hr⟩
+
+/-- the hypotheses of `C16_text_read_mixed_partial` are satisfiable: C01's mixed witness `#1=A(5);` `#2=(A(7)C(#1));` as the working-
+    session entries `I#1=A(5);⏎N#2=(A(7)C(#1));⏎` (an internally mapped record and an externally mapped one whose part refers back) -/
+example :
+    let rs : List (Letter × AnyRec Nat) := [(.I, .simple wRecA), (.N, .complex mCRec [10])]
+    (∀ x ∈ rs, x.1 ≠ .D) ∧ (rs.map (fun x => (x.2.item mDict).id)).Nodup ∧
+    rs.map (fun x => (x.2.item mDict).mkI) = mRecs.map (fun r => (r.item mDict).mkI) ∧   -- so `mEnv` is the environment of the theorem
+    (∀ x ∈ rs, AnyRecCovered mEnv x.2) ∧
+    wsRenderI (rs.map (fun x => (x.1, x.2.item mDict))) [] = stringToBytes "I#1=A(5);\nN#2=(A(7)C(#1));\n" := by
+  intro rs
+  obtain ⟨hnd, hcov⟩ := C01_mixed_hypotheses_witness
+  refine ⟨by decide, hnd, rfl, ?_, by decide⟩
+  intro x hx
+  simp only [rs, List.mem_cons, List.mem_singleton, List.not_mem_nil, or_false] at hx
+  rcases hx with rfl | rfl
+  · exact hcov _ (by simp [mRecs])
+  · exact hcov _ (by simp [mRecs])
 
 end text
 
